@@ -173,6 +173,63 @@ theorem evalList_and_at (ρ : Nat → Outcome) (rs : List Rule) (k : Nat) (hk : 
   rw [← hsplit] at this
   exact this
 
+/-! ### only the rules listed in a tree are consulted -/
+
+mutual
+theorem evalRule_congr (ρ σ : Nat → Outcome) : ∀ (r : Rule), (∀ id ∈ r.dfs, ρ id = σ id) → evalRule ρ r = evalRule σ r
+  | .basic id => by
+    intro h
+    have := h id (by simp [Rule.dfs])
+    simp [evalRule, this]
+  | .and rs => by
+    intro h
+    rw [evalRule_and, evalRule_and]
+    exact evalList_congr ρ σ rs (by simpa [Rule.dfs] using h)
+  | .or rs => by
+    intro h
+    rw [evalRule_or, evalRule_or]
+    exact evalList_congr ρ σ rs (by simpa [Rule.dfs] using h)
+theorem evalList_congr (ρ σ : Nat → Outcome) : ∀ (rs : List Rule), (∀ id ∈ dfsList rs, ρ id = σ id) → evalList ρ rs = evalList σ rs
+  | [] => by intro _; simp [evalList]
+  | [r] => by
+    intro h
+    rw [evalList_single, evalList_single]
+    exact evalRule_congr ρ σ r (by intro id hid; exact h id (by simp [dfsList, hid]))
+  | r :: r' :: rest => by
+    intro h
+    have h1 : evalRule ρ r = evalRule σ r := evalRule_congr ρ σ r (by intro id hid; exact h id (by simp [dfsList, hid]))
+    have h2 : evalList ρ (r' :: rest) = evalList σ (r' :: rest) :=
+      evalList_congr ρ σ (r' :: rest) (by intro id hid; exact h id (by rw [dfsList]; exact List.mem_append_right _ hid))
+    simp only [evalList, h1, h2]
+end
+
+/-- an AND-type first element gates the whole array: OK needs it OK -/
+theorem evalList_head_ok (ρ : Nat → Outcome) (r : Rule) (rest : List Rule) (hr : r.isOr = false)
+    (h : (evalList ρ (r :: rest)).isOk) : (evalRule ρ r).isOk := by
+  cases rest with
+  | nil => simpa [evalList] using h
+  | cons r' rest' =>
+    simp only [evalList] at h
+    by_cases hst : stops r (evalRule ρ r) = true
+    · rw [if_pos hst] at h; exact h
+    · exact (stops_and_iff r _ hr).mp (by simpa using hst)
+
+/-- … and when it is not OK, its outcome is the array's outcome -/
+theorem evalList_head_bad (ρ : Nat → Outcome) (r : Rule) (rest : List Rule) (hr : r.isOr = false)
+    (h : ¬ (evalRule ρ r).isOk) : (evalList ρ (r :: rest)).outcome = (evalRule ρ r).outcome :=
+  evalList_and_first_bad ρ [] r rest (by simp) hr h
+
+/-- status and final result of a single policy without fallback, as a function of its rule array's outcome -/
+theorem verify_single_of_outcome (ρ σ : Nat → Outcome) (rs ts : List Rule) (h : (evalList ρ rs).outcome = (evalList σ ts).outcome) :
+    (verify ρ [some rs]).status = (verify σ [some ts]).status ∧ (verify ρ [some rs]).final = (verify σ [some ts]).final := by
+  have hs : (evalList ρ rs).status = (evalList σ ts).status := congrArg Outcome.status h
+  have hr : (evalList ρ rs).res = (evalList σ ts).res := congrArg Outcome.res h
+  have he : (evalList ρ rs).err = (evalList σ ts).err := congrArg Outcome.err h
+  simp only [verify, hs, hr, he]
+  by_cases h0 : (evalList σ ts).status = 0
+  · by_cases h1 : (evalList σ ts).res = .ok <;> simp [h0, h1]
+  · simp [h0]
+
 theorem verify_single_ok (ρ : Nat → Outcome) (rs : List Rule) :
     ((verify ρ [some rs]).status = 0 ∧ ∃ e, (verify ρ [some rs]).final = some (.ok, e)) ↔ (evalList ρ rs).isOk := by
   simp only [verify]
